@@ -249,7 +249,7 @@ theorem modsAt_shift (a b : Annotation) (eff : Int) (he0 : 0 ≤ eff) (he : eff 
         | none => none
         | some [] => none
         | some d => some (d.map (shiftEntry eff a.seq.length))))
-    (i j : Nat) (hi : i < a.seq.length) (hj : j < a.seq.length)
+    (i j : Nat) (hi : i < a.seq.length) (_hj : j < a.seq.length)
     (hij : (j : Int) = if (i : Int) + eff < a.seq.length then (i : Int) + eff else (i : Int) + eff - a.seq.length) :
     modsAt b i = modsAt a j := by
   unfold modsAt
@@ -836,5 +836,17 @@ theorem times_zero_add (k : Nat) (h : Rat) : times k (h + 0) = times k h := by
   induction k with
   | zero => rfl
   | succ k ih => simp only [times, ih]; grind
+
+
+/-! ### facts about the demo annotations -/
+
+theorem demo_keysOK : KeysOK demo := by
+  intro d h
+  have : d = [(0, [⟨.str ['P', 'h'], 1⟩]), (3, [⟨.int 16, 2⟩])] := by
+    simp [demo] at h; exact h.symm
+  subst this
+  decide
+
+theorem demoNoIv_keysOK : KeysOK demoNoIv := demo_keysOK
 
 end Pept.Reorder
